@@ -94,6 +94,8 @@ type Exec struct {
 	randCtr    int
 	ifconvOK   map[*ssa.BasicBlock]*ifRegion
 	lockEvents []string
+	lastNow    Value
+	decOrigin  map[**sym.Term]decInfo
 }
 
 type qres struct {
